@@ -162,6 +162,10 @@ impl<'a> Parser<'a> {
             Token::Lparen => {
                 let result = self.expr(0)?;
                 match self.advance() {
+                    // A parenthesized expression is never a function name: "(a)(b)".
+                    Token::Rparen if self.peek(0) == &Token::Lparen => {
+                        Err(self.err(&Token::Lparen, "Invalid function name", true))
+                    }
                     Token::Rparen => Ok(result),
                     ref t => Err(self.err(t, "Expected ')' to close '('", false)),
                 }
